@@ -826,6 +826,10 @@ package table
 //@   modifies nothing
 // from C10 "what is read back equals what was configured": a request that is answered with an error leaves nothing
 // behind - a policy that refers to a statement nobody defined is neither stored nor merged into an existing one
+//@ func (*Policy).FillUp
+//@   requires p != nil
+//@   claims frame
+//@   modifies p.Statements
 //@ func (*RoutingPolicy).AddPolicy
 //@   claims at-return
-//@   at-return requires !ok && ret0 != nil ==> !has(pMap, name)
+//@   at-return requires refer && !ok && ret0 != nil ==> !has(pMap, name)
